@@ -775,6 +775,19 @@ func TestC07(t *testing.T) {
 	vcore.Check(t, vcore.N(12, 80), func(rt *rapid.T) {
 		runWindow(rt, rxwindow.Gen(rt))
 	})
+	// one datagram of legal size whose answer does not fit a datagram: thousands of Create PDRs without PDR ID but with a UE IP
+	// address; each costs 17 octets in the request and is echoed as a Created PDR of 19 octets in the response
+	for _, npdr := range []int{3000, 3460, 3800} {
+		var ies []*ie.IE
+		ies = append(ies, ie.NewNodeID(nodeIDPlaceholder, "", ""), ie.NewFSEID(0x97, net.ParseIP(nodeIDPlaceholder), nil))
+		for k := 0; k < npdr; k++ {
+			ies = append(ies, ie.NewCreatePDR(ie.NewPDI(ie.NewUEIPAddress(2, "10.60.0.1", "", 0, 0))))
+		}
+		m := fromBytes(stack.Marshal(message.NewSessionEstablishmentRequest(0, 0, 0, 40, 0, ies...)))
+		m.From = 0
+		m.Muts = []string{fmt.Sprintf("amplified-answer-%d", npdr)}
+		both(t, Case{Sessions: 1, Msgs: []*Msg{m}})
+	}
 	// structure-aware
 	vcore.Check(t, vcore.N(1500, 12000), func(rt *rapid.T) {
 		c := Case{Sessions: rapid.IntRange(0, 3).Draw(rt, "sessions")}
